@@ -101,13 +101,13 @@ def judge(line, r, name, seed):
 
 def run(ctx):
     quick = ctx.tier == "quick"
-    hi = 300
+    hi = 600 if ctx.deep else 300
     fams = ["c", "p"] if quick else ["z", "f", "c", "p"]
     pairs = [56, 64, 112, 128] if quick else EDGE
     lines = []
     for t in (0, 1, 2, 3):
         for fam in fams:
-            for lo, h in ((0, 100), (101, 200), (201, 300)):
+            for lo, h in ((0, 100), (101, 200), (201, 300)) + (((301, 400), (401, 500), (501, 600)) if ctx.deep else ()):
                 lines.append("msg type=%d family=%s seed=%d lo=%d hi=%d pairs=%s" % (
                     t, fam, ctx.seed, lo, min(h, hi), ",".join(str(p) for p in pairs if lo <= p <= h) or "-1"))
     biglen = (1 << 29) + 64   # the bit count no longer fits 32 bits
